@@ -12,6 +12,7 @@ T = {
  'C12': ('round-trip monitor: parse -> print -> parse field equality, fixed point, serde JSON = printed string, over every accepted string of the exhaustive enumeration, loose spellings, near-limit inputs, field-built versions', '5 C12'),
  'C17': ('invariant monitor on every parse error observed on hostile inputs: input()/offset()/span/location() recomputed independently, miette diagnostics rendered, error-kind clauses', '5 C17'),
  'C18': ('differential monitor: From<(T,T,T[,T])> for all ten integer types vs Version::parse of the dotted string (exhaustive u8/i8 triples, boundary values for wide types)', '5 C18'),
+ 'C06': ('crash / hang / UB monitoring: hostile strings and all operation compositions in shard subprocesses built with overflow checks and debug assertions (panic capture with first in-crate frame, signal and CPU-limit containment), an assertions-off slice, cachegrind instruction counts at n/2n/4n for 17 input families x 8 operations, valgrind memcheck slice, Miri slice (thorough)', '5 C06'),
  'C07': ('reference-model monitor: pointwise interval-membership oracle over hook-observed bounds, exhaustive bound-kind table + random multi-alternative operands + results fed back', '5 C07'),
  'C08': ('reference-model monitor: pointwise set-difference oracle over hook-observed bounds (all alternatives of B), exact emptiness by interval model, partition with intersect', '5 C08'),
  'C09': ('metamorphic + reference-model monitor: allows_any vs intersect().is_some() vs exact interval overlap, exhaustive touching-endpoint table', '5 C09'),
